@@ -149,12 +149,13 @@ static void ipPortFamily(const char *const *tmpls, const unsigned count)
 extern "C" void c40_pasv_host(void)
 {
     static const char *const t[] = {
-        "2\x01\x01,0,0,1,4,1",          // h1 = 200..299 and anything else of that shape
+        "25\x01,0,0,1,4,1",             // h1 = 250..259 and anything else of that shape
         "10,0,0,\x01\x01,4,1",          // h4: any two bytes (sign, separators, garbage)
-        "0,0,\x01,\x01,4,1",            // 0.0.0.0 and neighbours
+        "0,0,0,\x01,4,1",               // 0.0.0.0 and neighbours
 #ifdef VF_THOROUGH
+        "2\x01\x01,0,0,1,4,1",
+        "0,0,\x01,\x01,4,1",
         "10,0,0,\x01\x01\x01,4,1",      // h4: any three bytes
-        "\x01\x01,\x01\x01,0,1,4,1",
 #endif
     };
     ipPortFamily(t, sizeof(t) / sizeof(*t));
@@ -163,15 +164,18 @@ extern "C" void c40_pasv_host(void)
 extern "C" void c40_pasv_port(void)
 {
     static const char *const t[] = {
-        "10,0,0,1,2\x01\x01,1",         // p1 = 200..299 and anything else of that shape
-        "10,0,0,1,\x01\x01,1",          // p1: any two bytes
+        "10,0,0,1,25\x01,1",            // p1 = 250..259 and anything else of that shape
         "10,0,0,1,0,\x01\x01",          // p1 = 0: port 0.., p2 any two bytes
-        "10,0,0,1,\x01,25\x01",         // around 3,255 / 4,0 (1023/1024) and 255,255
-        "10,0,0,1,4,1\x01\x01",         // trailing bytes after the last number / 3-digit p2
+        "10,0,0,1,\x01,\x01",           // single digits: 3,9 / 4,0 (port 1024)
+        "10,0,0,1,3,25\x01",            // 3,255 (port 1023)
+        "10,0,0,1,4,1\x01",             // a trailing byte after the last number
 #ifdef VF_THOROUGH
+        "10,0,0,1,\x01,25\x01",
+        "10,0,0,1,2\x01\x01,1",
+        "10,0,0,1,\x01\x01,1",
+        "10,0,0,1,4,1\x01\x01",
         "10,0,0,1,\x01\x01\x01,1",
         "10,0,0,1,0,\x01\x01\x01",
-        "10,0,0,1,\x01\x01,\x01\x01",
 #endif
     };
     ipPortFamily(t, sizeof(t) / sizeof(*t));
@@ -180,14 +184,20 @@ extern "C" void c40_pasv_port(void)
 extern "C" void c40_pasv_huge(void)
 {
     static const char *const t[] = {
-        "10,0,0,1,4,42949672\x01\x01",            // 2^32 + small
+        "10,0,0,1,4,429496729\x01",               // 2^32 + small
+        "429496729\x01,0,0,1,4,1",
+        "10,0,0,1,4,-\x01",                       // negative p2 with a positive port
+        "10,0,0,1,4,1844674407370955161\x01",     // around 2^64
+        "10,0,0,1,214748364\x01,1",               // around 2^31
+#ifdef VF_THOROUGH
+        "10,0,0,1,4,42949672\x01\x01",
         "42949672\x01\x01,0,0,1,4,1",
         "10,0,0,1,-\x01,1\x01",
-        "10,0,0,1,4,184467440737095516\x01\x01",  // around 2^64
-        "10,0,0,1,21474836\x01\x01,1",            // around 2^31
-#ifdef VF_THOROUGH
-        "10,0,0,1,4,9223372036854775\x01\x01\x01",   // around 2^63
-        "10,0,0,-2147483\x01\x01\x01,4,1",
+        "10,0,0,1,\x01\x01,-\x01",
+        "10,0,0,1,4,184467440737095516\x01\x01",
+        "10,0,0,1,21474836\x01\x01,1",
+        "10,0,0,1,4,92233720368547758\x01\x01",   // around 2^63
+        "10,0,0,-21474836\x01\x01,4,1",
 #endif
     };
     ipPortFamily(t, sizeof(t) / sizeof(*t));
@@ -282,17 +292,32 @@ extern "C" void c40_eprt_addr(void)
 {
     static const char *const t[] = {
         "\x01" "1\x01" "10.0.0.1|8080|",        // both delimiters
-        "|\x01\x01" "10.0.0.1|8080|",           // protocol, delimiter
-        "|1|10.0.0.\x01\x01|8080|",             // last octet / delimiter position
-        "|1|2\x01\x01.0.0.1|8080|",             // 200..299
+        "|\x01|10.0.0.1|8080|",                 // protocol
+        "|1|25\x01.0.0.1|8080|",                // 250..259
         "|1|0.0.0.\x01|8080|",                  // 0.0.0.0
         "|1|10.0.0.1\x01" "8080\x01",           // the delimiters around the port
 #ifdef VF_THOROUGH
+        "|\x01\x01" "10.0.0.1|8080|",
+        "|1|10.0.0.\x01\x01|8080|",
+        "|1|2\x01\x01.0.0.1|8080|",
         "\x01\x01\x01" "10.0.0.1|8080|",
         "|1|\x01\x01\x01.1|8080|",
-        "|\x01|10.0.0.1\x01" "8080\x01",
 #endif
     };
+    if (vf_concretize(vf_range(0, 1, "family"))) {
+        // <ip> text of 73..77 bytes around Squid's MAX_IPSTRLEN (75) copy buffer, one symbolic byte at its end
+        vf_quiet();
+        char text[120];
+        unsigned len = 0;
+        text[len++] = '|'; text[len++] = '1'; text[len++] = '|';
+        const unsigned ipLen = (unsigned)vf_concretize(vf_range(73, 77, "iplen"));
+        for (unsigned i = 0; i + 1 < ipLen; ++i) text[len++] = '1';
+        text[len++] = symbolicByte("byte"); vf_assume(text[len - 1] != 0);
+        for (const char *r = "|8080|"; *r; ++r) text[len++] = *r;
+        text[len] = 0;
+        checkProtoIpPort(text, len, 0);
+        return;
+    }
     eprtFamily(t, sizeof(t) / sizeof(*t), false);
 }
 // port: boundaries 0/1, 1023/1024, 65535/65536, 2^31, 2^32, 2^63, sign, missing
@@ -300,16 +325,19 @@ extern "C" void c40_eprt_port(void)
 {
     static const char *const t[] = {
         "|1|10.0.0.1|\x01\x01|",
+        "|1|10.0.0.1|102\x01|",
+        "|1|10.0.0.1|6553\x01|",
+        "|1|10.0.0.1|429496737\x01|",
+        "|1|10.0.0.1|214748364\x01|",
+        "|1|10.0.0.1|-\x01|",
+        "|1|10.0.0.1|922337203685477580\x01|",
+#ifdef VF_THOROUGH
         "|1|10.0.0.1|102\x01\x01",
         "|1|10.0.0.1|655\x01\x01|",
         "|1|10.0.0.1|42949673\x01\x01|",
         "|1|10.0.0.1|21474836\x01\x01|",
-        "|1|10.0.0.1|-\x01|",
         "|1|10.0.0.1|92233720368547758\x01\x01|",
-#ifdef VF_THOROUGH
         "|1|10.0.0.1|\x01\x01\x01|",
-        "|1|10.0.0.1|10\x01\x01\x01",
-        "|1|10.0.0.1|6\x01\x01\x01\x01|",
 #endif
     };
     eprtFamily(t, sizeof(t) / sizeof(*t), false);
@@ -318,11 +346,14 @@ extern "C" void c40_eprt_port(void)
 extern "C" void c40_eprt_v6(void)
 {
     static const char *const t[] = {
-        "|\x01|::\x01|8080|",
+        "|\x01|::1|8080|",
+        "|2|::\x01|8080|",
         "|\x01|1.2.3.4|8080|",
-        "|2|\x01:\x01:1|8080|",
+        "|2|\x01::1|8080|",
         "|2|::ffff:1.2.3.\x01|8080|",
 #ifdef VF_THOROUGH
+        "|\x01|::\x01|8080|",
+        "|2|\x01:\x01:1|8080|",
         "|2|1::\x01\x01|8080|",
         "|2|\x01\x01\x01|8080|",
 #endif
@@ -376,17 +407,20 @@ static void listFamily(const char *const *tmpls, const unsigned count)
 extern "C" void c40_list_unix(void)
 {
     static const char *const t[] = {
-        "-rw-r--r-- 1 u g 1\x01 Jan \x01" "1 2020 name",          // size and day: digit or not
+        "-rw-r--r-- 1 u g 1\x01 Jan 0\x01 2020 name",             // size and day: digit or not
         "lrw-r--r-- 1 u g 12 Jan 01 20:1\x01\x01name -> t",         // end of the time field, start of the name
-        "lrwxrwxrwx 1 u g 12 Jan  1  2020 a \x01> \x01",            // two-space date layout, link arrow, link target
-        "\x01rw 1 u g 12 J\x01n 01 2020 name",                      // type letter, month spelling
-        "d 1 u 12 Jan 01 2020\x01\x01",                             // nothing / whitespace / name after the date
-        "-rw-r--r-- 1 u g 12 jan 1\x01 1999\x01 x",                 // type B layout with a short day
+        "lrwxrwxrwx 1 u g 12 Jan  1  2020 a -\x01\x01",              // two-space date layout, link arrow at the very end
+        "\x01rw 1 u g 12 Jan 01 2020 name -> \x01",                 // type letter, link target
+        "d 1 u 12 Jan 01 12:\x01\x01",                              // the line ends with the time field / whitespace / a name follows
+        "d 1 u g 12 Jan\x01\x01",                                   // the line ends at / shortly after the month
         "\x02 12 Jan 01 2020 n\x01",                                // more than MAX_TOKENS tokens
 #ifdef VF_THOROUGH
-        "-rw-r--r-- 1 u g \x01\x01 Jan \x01\x01 2020 name",
-        "l 1 u g 12 Jan 01 2020 \x01\x01\x01\x01",
-        "- 1 u g 12 Jan 01 \x01\x01\x01\x01 name",
+        "-rw-r--r-- 1 u g 1\x01 Jan \x01" "1 2020 name",
+        "lrwxrwxrwx 1 u g 12 Jan  1  2020 a \x01> \x01",
+        "\x01rw 1 u g 12 J\x01n 01 2020 name",                      // type letter, month spelling
+        "-rw-r--r-- 1 u g 12 jan 1\x01 1999\x01 x",                 // type B layout with a short day
+        "l 1 u g 12 Jan 01 2020 \x01\x01\x01",
+        "- 1 u g 12 Jan 01 \x01\x01\x01 name",
 #endif
     };
     listFamily(t, sizeof(t) / sizeof(*t));
@@ -401,10 +435,10 @@ extern "C" void c40_list_other(void)
         "+s1\x01,\x01,\tname",                                      // EPLF facts
         "+m\x01,/\x01\tn",                                          // EPLF modification time, directory flag
         "+i1.2,\x01\x01",                                           // EPLF without / with an empty name
-        "+\x01\x01",
 #ifdef VF_THOROUGH
+        "+\x01\x01",
         "0\x01-05-70 \x01\x01:33PM <dir> name",
-        "+\x01\x01\x01\x01",
+        "+\x01\x01\x01",
         "+s1,m\x01\x01,\t\x01",
 #endif
     };
